@@ -90,10 +90,10 @@ type pathEnum struct {
 
 // zeroSubjectClass: memory class of the value an absence predicate is applied to.
 func (pe *pathEnum) zeroSubjectClass(cond ssa.Value) (memClass, bool) {
-	c := cond
+	c := cv(cond)
 	for {
 		if u, ok := c.(*ssa.UnOp); ok && u.Op == token.NOT {
-			c = u.X
+			c = cv(u.X)
 			continue
 		}
 		break
@@ -156,11 +156,11 @@ func (pe *pathEnum) zeroAtom(cond ssa.Value) (bool, bool) {
 func (pe *pathEnum) rawZeroAtom(cond ssa.Value) (isZeroAtom bool, zeroWhenTrue bool) {
 	P := pe.P
 	neg := false
-	c := cond
+	c := cv(cond) // through the substitution: `empty := isZero || x.Len() == 0; if empty` is the same test
 	for {
 		if u, ok := c.(*ssa.UnOp); ok && u.Op == token.NOT {
 			neg = !neg
-			c = u.X
+			c = cv(u.X)
 			continue
 		}
 		break
@@ -445,7 +445,7 @@ func (pe *pathEnum) eventsOfInstr(in ssa.Instruction) []pathItem {
 			}
 			for _, rt := range P.rootsOf(val) {
 				for _, s := range rt.path {
-					if s.field != nil && s.field.Name() == "defaultVal" {
+					if s.field != nil && P.roleName(s.field) == "defaultVal" {
 						src = "default"
 					}
 				}
@@ -833,7 +833,7 @@ func (pe *pathEnum) endPath(items []pathItem, end string) {
 
 // enter block b of the top frame coming from pred (nil at function entry).
 func (pe *pathEnum) enter(stack []inlFrame, pred, b *ssa.BasicBlock, items []pathItem, depth int) {
-	if len(pe.paths) > 4000 || depth > 400 {
+	if len(pe.paths) > 20000 || depth > 600 {
 		pe.capHit = true
 		return
 	}
